@@ -12,7 +12,8 @@
   (transactions of all seven kinds, BeginBlock, EndBlock, changes of the validator records and of
   balances by other subsystems).  `WF` is the state invariant: it holds initially (`wf_init`) and
   is preserved by every operation (`wf_reachable`), so every hypothesis `WF s` below is satisfied
-  by every reachable state.  `E` carries the floating point comparisons of `ResultSoFar`.
+  by every reachable state.  `E` is the validation oracle of the option groups that are not
+  modelled (staking, proposal, evidence); no theorem constrains it.
 -/
 import OLP.Gov.Lemmas
 
@@ -61,7 +62,7 @@ theorem voting_starts_only_at_goal_before_deadline (E : Env) (s s' : St) (op : O
     p'.votingDeadline = s.height + (s.opts.byType p.ptype).votingDeadline := by
   rcases runTx_item E s s' op ho h pid with e | t
   · rw [e, ha] at ha'; simp only [Option.some.injEq] at ha'; subst ha'; rw [hf] at hv; cases hv
-  · rcases trans_active _ _ _ _ _ _ t with h1 | h1 | h1 | ⟨q, hq, _, hd, hg, hn⟩
+  · rcases trans_active _ _ _ _ _ t with h1 | h1 | h1 | ⟨q, hq, _, hd, hg, hn⟩
     · rw [h1, ha] at ha'; simp only [Option.some.injEq] at ha'; subst ha'; rw [hf] at hv; cases hv
     · rw [h1] at ha'; cases ha'
     · have := Item.exists_of_get (s.item pid) .active p (by simp [ha])
@@ -72,16 +73,29 @@ theorem voting_starts_only_at_goal_before_deadline (E : Env) (s s' : St) (op : O
 
 /-! ## 2. Expiry only after the voting deadline
 
-  FULL STATEMENT (false of the code as written, suspect S19):
-    whenever an operation turns an ACTIVE proposal `p` into an expired one (FAILED store, outcome
-    insufficient votes), `p.status = .voting ∧ p.votingDeadline < s.height`.
-  `runExpireVotes` checks neither the status nor the deadline, and EXPIRE_VOTES is registered on
-  the public router without a fee: `expire_any_time_by_anyone` below is the proved counterexample
-  (the harness replays it on the application every run, script "s19").  What does hold: -/
+  (Full strength since the repair 66ec62f: `runExpireVotes` — registered on the public router
+  and used by the internal queue alike — refuses unless the proposal is VOTING and the height is
+  above its voting deadline.  Before, the statement held for the internal queue only.) -/
 
-/-- the expiries the application queues itself (BeginBlock → EndBlock) only hit VOTING proposals
-    whose deadline is below the block height -/
-theorem expire_only_after_deadline_partial (E : Env) (s s' : St) (w : WF s) (h : endBlock E s = some s')
+/-- whoever executes whatever, from any account, as a transaction or from the internal queue: a
+    copy with outcome "insufficient votes" that was not there before comes from an ACTIVE
+    proposal in its VOTING stage whose deadline is below the block height, and it is that
+    proposal, completed -/
+theorem expire_only_after_deadline (E : Env) (s s' : St) (op : Op) (ho : OptsOK s.opts)
+    (h : runTx E s op = .ok s') (pid : PID) (st : Store) (q : Proposal)
+    (hg : (s'.item pid).get st = some q) (hq : q.outcome = .insufficientVotes)
+    (hnew : ∀ st0 p0, (s.item pid).get st0 = some p0 → p0.outcome ≠ .insufficientVotes) :
+    st = .failed ∧ ∃ p, (s.item pid).active = some p ∧ p.status = .voting ∧ p.votingDeadline < s.height ∧
+      q = { p with status := .completed, outcome := .insufficientVotes } := by
+  rcases runTx_item E s s' op ho h pid with e | t
+  · rw [e] at hg; exact absurd hq (hnew st q hg)
+  · rcases trans_expiry _ _ _ _ _ t st q hg hq with ⟨st0, p0, h0, h1⟩ | h1
+    · rw [hq] at h1; exact absurd h1 (hnew st0 p0 h0)
+    · exact h1
+
+/-- EndBlock as a whole: an ACTIVE copy that is gone afterwards was a VOTING proposal past its
+    deadline (the queue built at BeginBlock holds nothing else) -/
+theorem endblock_expiry_only_after_deadline (E : Env) (s s' : St) (w : WF s) (h : endBlock E s = some s')
     (pid : PID) (p : Proposal) (ha : (s.item pid).active = some p) (hgone : (s'.item pid).active = none) :
     p.status = .voting ∧ p.votingDeadline < s.height := by
   rcases endBlock_active E s s' h pid with e | hm
@@ -90,16 +104,15 @@ theorem expire_only_after_deadline_partial (E : Env) (s s' : St) (w : WF s) (h :
 
 /-! ## 3. Pass / fail follows the recorded votes of the snapshot
 
-  FULL STATEMENT (false for the IEEE-754 comparisons the code uses): the same without `hE`.
-  `(1.0 - float64(no)/float64(total)) < float64(pass)/100.0` is true at some exact boundaries,
-  e.g. no = 33, total = 100, pass = 67 (`float_rounding_decides_at_exact_boundary`; replayed on
-  the application by the script "boundary"; the pass comparison `>=` is exact on small integers,
-  which the harness sweeps every run). -/
+  (Full strength since the repair aed50ba: `ResultSoFar` decides in integers, the float
+  percentages are only logged.  What remains outside the theorem: Go evaluates `yesPower*100`,
+  `(totalPower-noPower)*100` and `passPercent*totalPower` in int64 while the model uses unbounded
+  integers, i.e. total voting power below 2^63/100 — validator power is whole OLT staked.) -/
 
 /-- a copy with outcome yes / no that was not there before is backed by the tally over the
     committed vote records: PASSED means yes·100 ≥ pass·(all − giveup), FAILED means that even
-    all remaining power voting yes would stay below the pass percentage -/
-theorem outcome_follows_snapshot_votes_partial (E : Env) (hE : E.Exact) (s s' : St) (op : Op) (ho : OptsOK s.opts)
+    all remaining power voting yes would stay below the pass percentage (and it did not pass) -/
+theorem outcome_follows_snapshot_votes (E : Env) (s s' : St) (op : Op) (ho : OptsOK s.opts)
     (h : runTx E s op = .ok s') (pid : PID) (st : Store) (p' : Proposal)
     (hg : (s'.item pid).get st = some p')
     (hnew : ∀ st0 p0, (s.item pid).get st0 = some p0 → p0.outcome ≠ p'.outcome) :
@@ -113,36 +126,46 @@ theorem outcome_follows_snapshot_votes_partial (E : Env) (hE : E.Exact) (s s' : 
         (s.opts.byType p'.ptype).passPercent) := by
   have key : ∀ (hoc : p'.outcome = .completedYes ∨ p'.outcome = .completedNo),
       (p'.outcome = .completedYes ∧
-         resultSoFar E (s'.item pid).votes (s.opts.byType p'.ptype).passPercent = some .passed) ∨
+         resultSoFar (s'.item pid).votes (s.opts.byType p'.ptype).passPercent = some .passed) ∨
       (p'.outcome = .completedNo ∧
-         resultSoFar E (s'.item pid).votes (s.opts.byType p'.ptype).passPercent = some .failed) := by
+         resultSoFar (s'.item pid).votes (s.opts.byType p'.ptype).passPercent = some .failed) := by
     intro hoc
     rcases runTx_item E s s' op ho h pid with e | t
     · rw [e] at hg; exact absurd rfl (hnew st p' hg)
-    · rcases trans_outcome _ _ _ _ _ _ t st p' hg hoc with ⟨st0, p0, h0, h1⟩ | ⟨h1, _, h2⟩ | ⟨h1, _, h2⟩
+    · rcases trans_outcome _ _ _ _ _ t st p' hg hoc with ⟨st0, p0, h0, h1⟩ | ⟨h1, _, h2⟩ | ⟨h1, _, h2⟩
       · exact absurd h1 (hnew st0 p0 h0)
       · exact Or.inl ⟨h1, h2⟩
       · exact Or.inr ⟨h1, h2⟩
   constructor
   · intro hy
     rcases key (Or.inl hy) with ⟨_, hr⟩ | ⟨hn, _⟩
-    · exact decide3_passed E hE _ _ _ _ _ (resultSoFar_decide3 E _ _ _ hr)
+    · exact decide3_passed _ _ _ _ _ (resultSoFar_decide3 _ _ _ hr)
     · rw [hy] at hn; cases hn
   · intro hn
     rcases key (Or.inr hn) with ⟨hy, _⟩ | ⟨_, hr⟩
     · rw [hn] at hy; cases hy
-    · have := decide3_failed E hE _ _ _ _ _ (resultSoFar_decide3 E _ _ _ hr)
+    · have := decide3_failed _ _ _ _ _ (resultSoFar_decide3 _ _ _ hr)
       exact ⟨this.2, this.1⟩
 
-/-- the counterexample to the full statement: for ANY comparison pair that behaves like the IEEE
-    doubles at this point, one NO vote of 33 % fails a 67 % proposal although the remaining 67 %
-    could still pass it -/
-theorem float_rounding_decides_at_exact_boundary (E : Env) (h1 : E.geDiv 0 100 67 = false)
-    (h2 : E.ltOneMinus 33 100 67 = true) :
-    decide3 E 0 33 100 0 67 = .failed ∧ ¬ failCond 33 100 0 67 := by
-  constructor
-  · simp [decide3, h1, h2]
-  · unfold failCond; decide
+/-- a vote that leaves the proposal open means that neither threshold is crossed: no decision is
+    missed either -/
+theorem open_vote_means_undecided (s s' : St) (pid : PID) (a : Addr) (o : Opinion) (p : Proposal)
+    (h : runVote s pid a o = .ok s') (ha : (s'.item pid).active = some p) :
+    ¬ passCond (yesPower (s'.item pid).votes) (totalPower (s'.item pid).votes) (giveupPower (s'.item pid).votes)
+        (s.opts.byType p.ptype).passPercent ∧
+    ¬ failCond (noPower (s'.item pid).votes) (totalPower (s'.item pid).votes) (giveupPower (s'.item pid).votes)
+        (s.opts.byType p.ptype).passPercent := by
+  obtain ⟨p0, votes', r, ha0, _, _, _, hr, rfl⟩ := runVote_ok s s' pid a o h
+  rw [St.item_setItem] at ha ⊢
+  simp only [if_true] at ha ⊢
+  cases r with
+  | passed => simp at ha
+  | failed => simp at ha
+  | tbd =>
+    simp only [Item.withVotes_active, ha0, Option.some.injEq] at ha
+    subst ha
+    simp only [Item.withVotes_votes]
+    exact decide3_tbd _ _ _ _ _ (resultSoFar_decide3 _ _ _ hr)
 
 /-- the vote records (validator, power) are written when voting begins — from the validator
     records that are active and committed at that moment — and no operation alters them later -/
@@ -154,7 +177,7 @@ theorem snapshot_fixed_when_voting_begins (E : Env) (s s' : St) (op : Op) (w : W
         ∃ v ∈ s.vals, v.1 = kv.1 ∧ v.2.power = kv.2.power ∧ v.2.active = true ∧ v.2.committed = true) := by
   rcases runTx_item E s s' op w.opts h pid with e | t
   · left; rw [e]
-  · rcases trans_votes _ _ _ _ _ _ t with h1 | ⟨p, ha, hs, hv⟩
+  · rcases trans_votes _ _ _ _ _ t with h1 | ⟨p, ha, hs, hv⟩
     · left; exact h1
     · right
       have h0 := (w.items pid).fundingNoVotes p ha hs
@@ -170,7 +193,7 @@ theorem config_applied_only_for_passed_proposal (E : Env) (s s' : St) (op : Op) 
     (s'.opts = s.opts ∧ s'.applied = s.applied) ∨
     ∃ pid p k v, op = .finalize pid ∧ (s.item pid).finalized = none ∧ (s.item pid).finFailed = none ∧
       (s.item pid).decided = some p ∧ p.status = .completed ∧ p.ptype = .config ∧
-      resultSoFar E (s.item pid).votes p.passPercent = some .passed ∧
+      resultSoFar (s.item pid).votes p.passPercent = some .passed ∧
       parseCfg p.cfg = .upd k v ∧ applyUpd E s.opts k v s.height = some s'.opts ∧
       s'.applied = s.applied ++ [pid] ∧
       ((s'.item pid).finalized.isSome ∨ (s'.item pid).finFailed.isSome) :=
@@ -198,7 +221,7 @@ theorem funds_returned_in_full_on_cancel_or_miss (E : Env) (s s' : St) (op : Op)
        (s'.item pid).total = (s.item pid).total - v) := by
   rcases runTx_item E s s' op w.opts h pid with e | t
   · rw [e]; exact ⟨hq, Or.inl ⟨fun _ => rfl, rfl⟩⟩
-  · exact trans_refundable _ _ _ _ _ _ (w.items pid) p hq hr t
+  · exact trans_refundable _ _ _ _ _ (w.items pid) p hq hr t
 
 /-- a withdrawal pays exactly the withdrawn amount to the named beneficiary (the fee step then
     moves the fee from the funder to the pool), and only the funder who signs can trigger it -/
@@ -269,7 +292,7 @@ theorem escrow_lowered_only_by_own_withdrawal_or_distribution (E : Env) (s s' : 
     split at h
     · split at h
       · obtain ⟨s1, b, h1, _, rfl⟩ := withFee_ok _ _ _ _ h
-        obtain ⟨p, votes', r, _, _, _, _, _, rfl⟩ := runVote_ok E s s1 pid0 val o h1
+        obtain ⟨p, votes', r, _, _, _, _, _, rfl⟩ := runVote_ok s s1 pid0 val o h1
         have hfunds : ∀ it', it'.funds = (s.item pid0).funds →
             (({ (s.setItem pid0 it') with bal := b } : St).item pid).funds = (s.item pid).funds := by
           intro it' hit
@@ -318,7 +341,7 @@ theorem escrow_lowered_only_by_own_withdrawal_or_distribution (E : Env) (s s' : 
   | expire pid0 =>
     exfalso
     simp only [runTx] at h
-    obtain ⟨p, _, rfl⟩ := runExpire_ok s s' pid0 h
+    obtain ⟨p, _, _, _, rfl⟩ := runExpire_ok s s' pid0 h
     rw [St.item_setItem] at hlt
     by_cases hp : pid = pid0
     · subst hp; simp at hlt
@@ -369,7 +392,7 @@ theorem distributed_once_le_contributed (E : Env) (s s' : St) (pid : PID) (w : W
     · simp only [toFinFailed] at hafter
       rw [St.item_setItem] at hafter; simp [hf1] at hafter
     · obtain ⟨hne, _, _, _, _, _, _, hbal, hburn, hitems⟩ := distributeAndMove_items s s2 pid p d src hdm
-      obtain ⟨hbad, htot, hfunds⟩ := deleteAll_clears E (s.item pid) p.passPercent r (w.items pid) hr
+      obtain ⟨hbad, htot, hfunds⟩ := deleteAll_clears (s.item pid) p.passPercent r (w.items pid) hr
       simp only [hbad] at hitems
       simp only [Bool.false_eq_true, if_false] at hitems
       have hdok : d.OK := by
@@ -452,34 +475,43 @@ theorem wf_g0 : WF g0 := by
   exact ⟨this.keys, this.items, this.opts, fun pid hp => by simp [g0, initSt] at hp, this.appliedNodup, this.appliedFinal⟩
 
 /-- alice creates a general proposal (funding deadline 9, voting deadline 13) -/
-def g1 : St := run exactEnv g0 [.create "p" .general "alice" 20 9 100 13 51 "" 1]
+def g1 : St := run smallEnv g0 [.create "p" .general "alice" 20 9 100 13 51 "" 1]
 
 /-- a full lifecycle: bob funds to the goal in block 6 (snapshot 33/33/34), v3 and v1 vote yes in
     block 7 (67 ≥ 51 %: passed), EndBlock 8 finalises and distributes the 100 units -/
-def g2 : St := run exactEnv g1 [.beginBlock 6, .fund "p" "bob" 80 1, .endBlock]
-def g3 : St := run exactEnv g2 [.beginBlock 7, .vote "p" "alice" "v3" .yes 1, .vote "p" "bob" "v1" .yes 1, .endBlock]
-def g4 : St := run exactEnv g3 [.beginBlock 8, .endBlock]
+def g2 : St := run smallEnv g1 [.beginBlock 6, .fund "p" "bob" 80 1, .endBlock]
+def g3 : St := run smallEnv g2 [.beginBlock 7, .vote "p" "alice" "v3" .yes 1, .vote "p" "bob" "v1" .yes 1, .endBlock]
+def g4 : St := run smallEnv g3 [.beginBlock 8, .endBlock]
 /-- cancel and refund: alice cancels, then withdraws her 20 in two parts to bob and to herself -/
-def c1 : St := run exactEnv g1 [.cancel "p" "alice" 1]
-def c2 : St := run exactEnv c1 [.beginBlock 6, .withdraw "p" "alice" 5 "bob" 1, .withdraw "p" "alice" 15 "alice" 1]
-/-- … and an internal expiry that satisfies `expire_only_after_deadline_partial` -/
-def e1 : St := run exactEnv g2 [.beginBlock 11]
+def c1 : St := run smallEnv g1 [.cancel "p" "alice" 1]
+def c2 : St := run smallEnv c1 [.beginBlock 6, .withdraw "p" "alice" 5 "bob" 1, .withdraw "p" "alice" 15 "alice" 1]
+/-- … and an internal expiry (voting deadline 10, block 11) -/
+def e1 : St := run smallEnv g2 [.beginBlock 11]
 
 end OLP.Gov.Examples
 
 namespace OLP.Props.C14
 open OLP OLP.Gov OLP.Ledger OLP.Gov.Examples
-/-- S19, the counterexample to "expiry only after the voting deadline": at height 5 the proposal
-    is in its FUNDING stage, deadlines 9 and 13 ahead; mallory — neither proposer, funder nor
-    validator — sends EXPIRE_VOTES, pays nothing, and the proposal is expired -/
-theorem expire_any_time_by_anyone :
+/-- regression for the repaired S19 (KF-C14-1): at height 5 the proposal is in its FUNDING stage,
+    deadlines 9 and 13 ahead; mallory — neither proposer, funder nor validator — sends
+    EXPIRE_VOTES: refused with "not in voting status", nothing changes, nothing is charged -/
+theorem outsider_expiry_before_deadline_refused :
     ((g1.item "p").active.map (fun p => (p.status, p.fundingDeadline, p.votingDeadline))) = some (.funding, 9, 13) ∧
     g1.height = 5 ∧
-    (step exactEnv g1 (.expire "p")).2 = .ok ∧
-    ((step exactEnv g1 (.expire "p")).1.item "p").active = none ∧
-    (((step exactEnv g1 (.expire "p")).1.item "p").failed.map (·.outcome)) = some .insufficientVotes ∧
-    bal (step exactEnv g1 (.expire "p")).1.bal "mallory" = bal g1.bal "mallory" := by decide
+    (step smallEnv g1 (.expire "p")).2 = .err .statusNotVoting ∧
+    ((step smallEnv g1 (.expire "p")).1.item "p") = g1.item "p" ∧
+    (step smallEnv g1 (.expire "p")).1.bal = g1.bal := by decide
 
+/-- … also in the voting stage while the deadline (10) has not passed; at height 11 anybody may -/
+theorem outsider_expiry_in_voting_stage :
+    (step smallEnv (run smallEnv g2 [.beginBlock 10]) (.expire "p")).2 = .err .statusNotVoting ∧
+    (step smallEnv (run smallEnv g2 [.beginBlock 11]) (.expire "p")).2 = .ok := by decide
+
+/-- regression for the repaired tally (KF-C14-2): pass percentage 67, powers 33/33/34, one NO of
+    power 33 is exactly the boundary (100−33)/100 = 67/100: the proposal stays undecided, and a
+    second NO fails it -/
+theorem boundary_vote_stays_undecided :
+    decide3 0 33 100 0 67 = .tbd ∧ decide3 0 66 100 0 67 = .failed ∧ decide3 67 33 100 0 67 = .passed := by decide
 
 example : (g2.item "p").active.map (·.status) = some .voting ∧ powers (g2.item "p").votes = [("v1", 33), ("v2", 33), ("v3", 34)] := by decide
 example : (g3.item "p").passed.map (·.outcome) = some .completedYes ∧ (g3.item "p").rank = 3 := by decide
@@ -488,17 +520,15 @@ example : (g4.item "p").finalized.isSome ∧ (g4.item "p").total = 0 ∧ (g4.ite
     value g4 + g4.burned = value g0 + g0.burned := by decide
 
 /-- `WF`, `OptsOK`, `Dist.OK` hold of these states; the hypotheses of the theorems above are met -/
-example : WF g3 := wf_reachable exactEnv _ _ (wf_reachable exactEnv _ _ (wf_reachable exactEnv g0 _ wf_g0))
+example : WF g3 := wf_reachable smallEnv _ _ (wf_reachable smallEnv _ _ (wf_reachable smallEnv g0 _ wf_g0))
 example : (dPass).OK ∧ (dFail).OK := ⟨⟨by decide, by decide, by decide, by decide, by decide, by decide⟩,
   ⟨by decide, by decide, by decide, by decide, by decide, by decide⟩⟩
-example : ∃ s', runTx exactEnv (beginBlock g3 8) (.finalize "p") = .ok s' ∧ (s'.item "p").finalized.isSome := by
+example : ∃ s', runTx smallEnv (beginBlock g3 8) (.finalize "p") = .ok s' ∧ (s'.item "p").finalized.isSome := by
   refine ⟨_, rfl, by decide⟩
 
 example : (c1.item "p").queryAll.map (·.outcome) = some .cancelled ∧ (c1.item "p").total = 20 := by decide
 example : (c2.item "p").total = 0 ∧ bal c2.bal "bob" = 1005 ∧ fundAmount (c2.item "p").funds "alice" = 0 := by decide
-example : e1.qExpire = ["p"] ∧ ((step exactEnv e1 .endBlock).1.item "p").failed.map (·.outcome) = some .insufficientVotes := by decide
-/-- the boundary under the exact comparisons: one NO of 33 % leaves a 67 % proposal open -/
-example : decide3 exactEnv 0 33 100 0 67 = .tbd := by decide
+example : e1.qExpire = ["p"] ∧ ((step smallEnv e1 .endBlock).1.item "p").failed.map (·.outcome) = some .insufficientVotes := by decide
 
 
 
